@@ -57,6 +57,8 @@ pub enum ReadMode {
     Lazy,
     /// never touch the payload
     Abandon,
+    /// wait for one controller step (gate `PubRead`), then read_all()
+    LateAll,
     /// take the payload out of the message and read it chunk by chunk in a separate task that
     /// outlives the handler
     Detached,
